@@ -15,8 +15,10 @@
      ExtHeaderPacket::{check_len,new_checked,..} nhc_ext_*
      ExtHeaderRepr::{parse, buffer_len}          nhc_ext_parse / nhc_ext_buffer_len
 
-   This is the REPAIRED code for defect D2 (`set_ports` 4-bit form uses `|`, `dst_port` masks
-   0x0f) and for the 0b01 form of `dst_port` (reads the octet after the in-line source port).
+   This is the code after the repairs 33cc16a (D2: `set_ports` 4-bit form uses `|`, `dst_port`
+   masks 0x0f), 3a5c5cf (0b01 form of `dst_port` reads the octet after the in-line source port),
+   e90e929 (a computed checksum 0 is sent as 0xffff; parse sums the checksum in and rejects 0)
+   and d95c319 (emit without checksum offload writes checksum 0 and clears C).
    Panic sources: every `data[..]` index; `unreachable!()` arms are unreachable by the masks and
    are not modelled as branches.  The RFC 1071 checksum is the plain function of WireBase
    (its arithmetic is property C08's subject); `payload_len as u16 + 8` is a debug-overflow
@@ -126,15 +128,28 @@ Definition nhc_udp_header_len (r : nhc_ports) : Z :=
   else if nhc_port_8bit (np_src r) || nhc_port_8bit (np_dst r) then len + 3
   else len + 4.
 
-(* !checksum::combine(&[pseudo_header_v6(src, dst, Udp, payload_len as u32 + 8),
-                       src_port, dst_port, payload_len as u16 + 8, checksum::data(payload)]) *)
+(* the words summed by emit and parse:
+   [pseudo_header_v6(src, dst, Udp, payload_len as u32 + 8), src_port, dst_port,
+    payload_len as u16 + 8, checksum::data(payload)] *)
 Definition nhc_PROTO_UDP : Z := 17.
-Definition nhc_udp_cksum (src dst : list Z) (sp dp : Z) (payload : list Z) : outcome Z :=
+Definition nhc_udp_sum_words (src dst : list Z) (sp dp : Z) (payload : list Z) : list Z :=
   let plen := blen payload in
-  if 65535 <? plen mod 65536 + 8 then Panic (* `payload_len as u16 + 8` overflows (debug build) *)
-  else Ok (65535 - wb_cksum_combine
-             [wb_pseudo_header src dst nhc_PROTO_UDP ((plen + 8) mod 4294967296);
-              sp; dp; plen mod 65536 + 8; wb_cksum_data payload]).
+  [wb_pseudo_header src dst nhc_PROTO_UDP ((plen + 8) mod 4294967296);
+   sp; dp; plen mod 65536 + 8; wb_cksum_data payload].
+(* `payload_len as u16 + 8` overflows u16 (debug build panics) *)
+Definition nhc_udp_len_overflow (payload : list Z) : bool := 65535 <? blen payload mod 65536 + 8.
+
+(* emit: !checksum::combine(&[..]) *)
+Definition nhc_udp_cksum (src dst : list Z) (sp dp : Z) (payload : list Z) : outcome Z :=
+  if nhc_udp_len_overflow payload then Panic
+  else Ok (65535 - wb_cksum_combine (nhc_udp_sum_words src dst sp dp payload)).
+
+(* parse: checksum == 0 || combine(&[.., checksum]) != !0  ->  Err *)
+Definition nhc_udp_verify (src dst : list Z) (sp dp : Z) (payload : list Z) (c : Z) : outcome unit :=
+  if nhc_udp_len_overflow payload then Panic
+  else if (c =? 0) ||
+          negb (wb_cksum_combine (nhc_udp_sum_words src dst sp dp payload ++ [c]) =? 65535)
+       then Err 0 else Ok tt.
 
 (* UdpNhcRepr::parse; [rx] = checksum_caps.udp.rx() *)
 Definition nhc_udp_parse (b : list Z) (src dst : list Z) (rx : bool) : outcome nhc_ports :=
@@ -142,13 +157,13 @@ Definition nhc_udp_parse (b : list Z) (src dst : list Z) (rx : bool) : outcome n
   do d <- nhc_udp_dispatch_field b;
   if negb (d =? wsix_DISPATCH_UDP_HEADER) then Err 0 else
   do _ <- (if rx then
-             do payload <- nhc_udp_payload b;
-             do sp <- nhc_udp_src_port b;
-             do dp <- nhc_udp_dst_port b;
-             do ck <- nhc_udp_cksum src dst sp dp payload;
              do c <- nhc_udp_checksum b;
              match c with
-             | Some c => if negb (ck =? c) then Err 0 else Ok tt
+             | Some c =>
+                 do payload <- nhc_udp_payload b;
+                 do sp <- nhc_udp_src_port b;
+                 do dp <- nhc_udp_dst_port b;
+                 nhc_udp_verify src dst sp dp payload c
              | None => Ok tt
              end
            else Ok tt);
@@ -172,8 +187,9 @@ Definition nhc_udp_emit (r : nhc_ports) (src dst : list Z) (payload : list Z) (t
   if tx then
     do pl <- wb_from b st;
     do ck <- nhc_udp_cksum src dst (np_src r) (np_dst r) pl;
-    nhc_udp_set_checksum b ck
-  else Ok b.
+    (* a computed zero is transmitted as all-ones *)
+    nhc_udp_set_checksum b (if ck =? 0 then 65535 else ck)
+  else nhc_udp_set_checksum b 0.
 
 Definition nhc_ports_wf (r : nhc_ports) : bool := is_u16 (np_src r) && is_u16 (np_dst r).
 
